@@ -163,10 +163,11 @@ func MessageKey(msg *pb.XuperMessage) string {
 
 	header := msg.GetHeader()
 	buf := new(bytes.Buffer)
-	buf.WriteString(header.GetType().String())
-	buf.WriteString(header.GetBcname())
-	buf.WriteString(header.GetFrom())
-	buf.WriteString(header.GetLogid())
+	// length-prefix every field so that different headers never give the same key
+	for _, f := range []string{header.GetType().String(), header.GetBcname(), header.GetFrom(), header.GetLogid()} {
+		buf.WriteString(fmt.Sprintf("%d:", len(f)))
+		buf.WriteString(f)
+	}
 	buf.WriteString(fmt.Sprintf("%d", header.GetDataCheckSum()))
 	return utils.F(hash.DoubleSha256(buf.Bytes()))
 }
